@@ -6,10 +6,15 @@ spec:   spec/WsBuffer.tla        pump / receiver / server hand-off, one action p
         spec/WsBufferTrace.tla   boundary-trace judge; queue / in-hand / waiters are inferred by TLC
 legs:   M  exhaustive TLC check of the design (safety + liveness, per-action coverage, vacuity switch)
            the application is a reader task and a writer task: close()/send() under a pending receive,
-           and a failing server receive(), are part of the model
+           and a failing server receive(), are part of the model; so are a close() whose close event the
+           server refuses (the application goes on receiving) and the end of the application callable
+           (RespEnd / AppReturn, invariants AfterAppReturn, AcceptedHasPump)
         A  TLC-generated behaviours -> stimulus scripts driven on the real falcon.asgi WebSocket:
            A1 run-to-quiescence behaviours: the result of every application call is compared with
-              the specification's; A2 simulated fine-grained behaviours projected to racy scripts
+              the specification's; A2 simulated fine-grained behaviours projected to racy scripts;
+           A3 two scenario families enumerated by TLC for every capacity 1..4 x 0..capacity+1 pending messages:
+              receive^a, refused close(), receive^b, close(), end of the callable / sender-only responder
+              that ends by returning or by letting WebSocketDisconnected propagate into falcon.asgi.App
         B  boundary traces recorded from the real code (A1, A2 and seeded random scripts beyond the
            exhaustive bounds), judged by TLC
 """
@@ -29,7 +34,16 @@ META = {
     'level_note': 'Bounded: model <= 5 messages / <= 7 application calls / 2 cancellations; real schedules <= 8 messages, '
                   '<= 10 calls, <= 40 stimuli.  "Held" is read as enqueued (+1 message in the pump\'s hand, reported). '
                   'The application is a reader task plus a writer task (send/close under a pending receive); an injected '
-                  'failure of the server receive() is covered for pending/later receives only. No call is started after '
+                  'failure of the server receive() is covered for pending/later receives only. A close() whose '
+                  'websocket.close send raises (at most 1 per model behaviour, any number in judged traces) leaves the '
+                  'connection accepted: later receives must deliver queue + in-hand event in order (model actions AppCloseF / '
+                  'CloseSendFail, invariants Conserved / AcceptedHasPump; leg A3 "failclose": capacities 1..4 x 0..capacity+1 '
+                  'messages all pending before the first call, <= 9 calls). The end of the ASGI callable is an observation '
+                  'point (RespEnd / AppReturn, invariant AfterAppReturn; stray tasks and outstanding receive() measured when '
+                  'falcon.asgi.App returns, responder returning or re-raising WebSocketDisconnected; leg A3 "sender": <= 3 '
+                  'sends, capacities 1..4 x 0..capacity+1 unread messages, arrivals interleaved). Quick replays a seeded '
+                  'sample of the A1/A3 scripts (6000 / 1200 / 1000), thorough 60000 of A1 and all of A3. The refused close is injected only into '
+                  'application close() calls, not into the framework\'s own close. No call is started after '
                   'close() returned (C17). Trusted: TLC, asyncio FIFO scheduling, the fake ASGI server in engine/steploop.py.',
 }
 
@@ -37,7 +51,7 @@ from engine import bytesrc, steploop
 from engine import tlc as _tlc
 from engine.core import MachineryError, digest
 
-DISC, OK, CANCELLED, ERR = 0, -2, -3, -9
+DISC, OK, CANCELLED, SENDFAIL, ERR = 0, -2, -3, -4, -9
 
 
 def ev(e, m=-1, op='', r=-1, t='', p=-1, o=-1, b=0):
@@ -78,7 +92,13 @@ class _Run:
     style 'dual'             two application tasks share the connection: a reader task makes the receive
                              calls, a writer task the send/close calls, so a receive can be pending while the
                              other task sends or closes
+    op 'closeF'              a close() whose close event (if one is sent) the server refuses: its send() raises,
+                             close() re-raises, the application catches it and goes on with the script
+    end_mode 'return'/'raise' how the responder ends at stimulus E: it returns, or it lets the WebSocketDisconnected
+                             of its last call (if that call raised one) propagate into falcon.asgi.App
     stimuli  D  next client event becomes available      F  the server's receive() starts raising
+             E  the responder ends now (ignored while a call is in flight); RespEnd is logged when it does, and
+                AppReturn (stray tasks, outstanding receive() calls) when the ASGI callable has returned
              A  permit the next call (dual: of the reader)    B  permit the next call (dual: of the writer)
              C  cancel the pending receive    S  one loop pass    Q  run until quiescent"""
 
@@ -106,7 +126,10 @@ class _Run:
         self.faulted = False
         self.busy = False
         self.n_end = 0
+        self.n_final = -1
         self.app_done = False
+        self.ended = False            # stimulus E was applied: the responder ends without further calls
+        self.last_exc = None          # the WebSocketDisconnected raised by the most recent call, if it raised one
 
     # ---- application side -------------------------------------------------------------------
     def _known(self):
@@ -117,9 +140,12 @@ class _Run:
 
     async def _op(self, ws, op, lane):
         from falcon.errors import WebSocketDisconnected
-        self.log.append({'e': 'AppCall', 'op': op})
+        refuse = op == 'closeF'
+        op = 'close' if refuse else op
+        self.log.append({'e': 'AppCall', 'op': op, 'b': 1 if refuse else 0})
         self.inflight[lane] = op
         xname = ''
+        self.last_exc = None
         try:
             if op == 'recv':
                 r = int(await ws.receive_text())
@@ -127,10 +153,17 @@ class _Run:
                 await ws.send_text('x')
                 r = OK
             else:
-                await ws.close()
+                self.server.refuse_close = refuse
+                try:
+                    await ws.close()
+                finally:
+                    self.server.refuse_close = False
                 r = OK
-        except WebSocketDisconnected:
+        except WebSocketDisconnected as ex:
             r = DISC
+            self.last_exc = ex
+        except steploop.SendRefused:
+            r = SENDFAIL          # the application catches the server's error and keeps using the connection
         except asyncio.CancelledError:
             if not self.cancel_pending or op != 'recv':
                 raise
@@ -145,7 +178,7 @@ class _Run:
             xname = type(ex).__name__
         self.inflight[lane] = None
         self.returned[lane] += 1
-        if op == 'close':
+        if op == 'close' and r != SENDFAIL:
             self.closed_ret = True
         self.log.append({'e': 'AppRet', 'op': op, 'r': r, 'p': len(steploop.pending_tasks(self._known())), 'x': xname})
 
@@ -153,7 +186,7 @@ class _Run:
         for i, op in enumerate(self.lanes[lane]):
             await self.gates[lane].gate(i)
             # no call is started after close() has returned (C17's business) or after the script is over
-            if self.finished or self.closed_ret:
+            if self.finished or self.closed_ret or self.ended:
                 break
             if self.case['style'] == 'sub':
                 self.optask = asyncio.ensure_future(self._op(ws, op, lane))
@@ -171,6 +204,32 @@ class _Run:
             await self._lane(ws, 'r')
         if not self.finished:
             await self.final_gate      # park: the framework must not close before the script is over
+        if self.ended:
+            self.log.append({'e': 'RespEnd'})
+            if self.case.get('end_mode') == 'raise' and self.last_exc is not None:
+                raise self.last_exc    # default handling of falcon.asgi.App
+
+    async def _call_app(self, app, scope):
+        """the ASGI application callable; its return is an observation point (only when the script ended the responder)"""
+        r = OK
+        try:
+            await app(scope, self.server.receive, self.server.send)
+        except Exception:
+            r = ERR
+            raise
+        finally:
+            if self.ended and not self.finished:
+                self.log.append({'e': 'AppReturn', 'r': r, 'p': len(steploop.pending_tasks(self._known())),
+                                 'o': self.server.outstanding})
+
+    def _end(self):
+        """stimulus E: the responder ends (no further calls).  Not while a call is in flight, not after a server fault."""
+        if self.ended or self.faulted or self.inflight['r'] or self.inflight['w']:
+            return
+        self.ended = True
+        for g in self.gates.values():
+            g.open_all()
+        self.final_gate.set_result(None)
 
     # ---- controller --------------------------------------------------------------------------
     def _cancel(self):
@@ -196,7 +255,7 @@ class _Run:
     def _fault(self):
         """the server's receive() starts raising - only while no send/close is permitted-but-unfinished
         (close() awaiting a pump that failed is outside the model) and only with a pump (capacity > 0)"""
-        if self.case['mq'] == 0 or self.faulted:
+        if self.case['mq'] == 0 or self.faulted or self.ended:
             return
         for lane in ('r', 'w'):
             g = self.gates[lane]
@@ -223,7 +282,7 @@ class _Run:
         self.gates = {k: steploop.Gates(len(v)) for k, v in self.lanes.items()}
         self.final_gate = loop.create_future()
         scope = steploop.ws_scope('/', extra={'verif.run': self})
-        self.app_task = asyncio.ensure_future(_app(case['mq'])(scope, srv.receive, srv.send))
+        self.app_task = asyncio.ensure_future(self._call_app(_app(case['mq']), scope))
         # handshake: run until the accept went out and everything started by it has settled
         await self._settle()
         if not any(e['e'] == 'SrvSend' and e['t'] == 'accept' for e in self.log):
@@ -240,6 +299,8 @@ class _Run:
                 self._cancel()
             elif s == 'F':
                 self._fault()
+            elif s == 'E':
+                self._end()
             elif s == 'S':
                 await asyncio.sleep(0)
             elif s == 'Q':
@@ -261,10 +322,12 @@ class _Run:
             await self._settle()
         for g in self.gates.values():
             g.open_all()
-        self.final_gate.set_result(None)
+        if not self.final_gate.done():
+            self.final_gate.set_result(None)
         await self._settle()
         self.app_done = self.app_task.done()
         self.log.append({'e': 'Final', 'p': len(steploop.pending_tasks([])), 'o': srv.outstanding})
+        self.n_final = len(self.log) - 1
         if not self.app_task.done():
             self.app_task.cancel()
         elif not self.app_task.cancelled() and self.app_task.exception() is not None and not self.faulted:
@@ -275,7 +338,7 @@ def run_case(stepper, case):
     """Execute one case on the real falcon.asgi.App; returns (trace for the judge, info)."""
     run = _Run(case)
     stepper.run(run.main())
-    evs = run.log[:run.n_end] + [run.log[-1]]
+    evs = run.log[:run.n_end] + [run.log[run.n_final]]
     k = next(i for i, e in enumerate(evs) if e['e'] == 'SrvSend' and e['t'] == 'accept')
     if k != 0:
         raise MachineryError('events before the accept: %r' % (evs[:k],))
@@ -296,9 +359,10 @@ def run_case(stepper, case):
     info = {'racy': racy, 'overlap': overlap, 'errors': run.errors, 'leftover': stepper.leftover,
             'app_done': run.app_done, 'faulted': run.faulted, 'busy': run.busy,
             'raised': {str(i): e['x'] for i, e in enumerate(evs) if e.get('x')},
-            'pulls_at': run.pulls_at, 'end': run.end, 'tail': run.log[run.n_end:-1],
-            'tokens': [(e['e'], e.get('op', ''), e.get('r', -1)) for e in evs
-                       if e['e'] in ('Arrive', 'AppCall', 'AppRet', 'Cancel', 'SrvRecvFail')]}
+            'pulls_at': run.pulls_at, 'end': run.end, 'tail': run.log[run.n_end:run.n_final],
+            'app_return': next(({'p': e['p'], 'o': e['o'], 'r': e['r']} for e in evs if e['e'] == 'AppReturn'), None),
+            'tokens': [(e['e'], 'closeF' if e['e'] == 'AppCall' and e.get('b') else e.get('op', ''), e.get('r', -1))
+                       for e in evs if e['e'] in ('Arrive', 'AppCall', 'AppRet', 'Cancel', 'SrvRecvFail', 'RespEnd')]}
     # break the reference cycles (run <-> tasks <-> coroutine frames) so that finished tasks are freed at once:
     # asyncio.all_tasks() walks a WeakSet that otherwise grows until the next full garbage collection
     run.lane_tasks = []
@@ -316,9 +380,12 @@ def random_case(rng, capacities=(0, 1, 1, 2, 2, 3, 4), max_msgs=8, max_ops=10, m
     fault = mq > 0 and rng.random() < 0.12
     ops = []
     wr, ws, wc = rng.choice(((6, 2, 1), (3, 3, 1), (8, 1, 0), (2, 5, 1), (4, 1, 2)))
+    wf = rng.choice((0, 0, 1, 2))          # close() calls whose close event the server refuses
     for _ in range(rng.randint(0, max_ops)):
-        op = rng.choice(['recv'] * wr + ['send'] * ws + ['close'] * wc)
+        op = rng.choice(['recv'] * wr + ['send'] * ws + ['close'] * wc + ['closeF'] * wf)
         ops.append(op)
+        if op == 'closeF':
+            wf = 0                     # at most one refused close per script (the judge allows any number)
         if op == 'close':
             if style != 'dual':
                 break                  # one task: the script ends at close (see META level_note)
@@ -329,7 +396,10 @@ def random_case(rng, capacities=(0, 1, 1, 2, 2, 3, 4), max_msgs=8, max_ops=10, m
     stim = [rng.choice(alphabet) for _ in range(rng.randint(2, max_stim))]
     if fault:
         stim.insert(rng.randrange(len(stim) + 1), 'F')
-    return {'mq': mq, 'nmsg': nmsg, 'disc': rng.random() < 0.6, 'ops': ops, 'stim': stim,
+    if rng.random() < 0.3:             # the responder ends inside the script: the callable's return is observed
+        stim.insert(rng.randrange(len(stim) // 2, len(stim) + 1), 'E')
+        stim.append('Q')
+    return {'end_mode': rng.choice(('return', 'raise')), 'mq': mq, 'nmsg': nmsg, 'disc': rng.random() < 0.6, 'ops': ops, 'stim': stim,
             'recv_mode': rng.choice(('immediate', 'suspend')), 'send_mode': rng.choice(('immediate', 'suspend')),
             'style': style}
 
@@ -356,7 +426,9 @@ def case_from_quiescent(b, variant):
             stim += ['A' if e['op'] == 'recv' else 'B', 'Q']
         elif e['e'] == 'C':
             stim += ['C', 'Q']
-    c = {'mq': b['mq'], 'ops': ops, 'stim': stim}
+        elif e['e'] == 'E':
+            stim += ['E', 'Q']
+    c = {'mq': b['mq'], 'ops': ops, 'stim': stim, 'end_mode': 'return'}
     c.update(_client(b['all']))
     c.update(variant)
     return c
@@ -379,12 +451,14 @@ def case_from_tokens(b, variant):
     """leg A2: a fine-grained behaviour projected to stimulus tokens (D, F, r / s / c, C, S)."""
     ops, stim = [], []
     for t in b['h']:
-        if t in 'rsc':
-            ops.append({'r': 'recv', 's': 'send', 'c': 'close'}[t])
+        if t in 'rscx':
+            ops.append({'r': 'recv', 's': 'send', 'c': 'close', 'x': 'closeF'}[t])
             stim.append('A' if t == 'r' else 'B')
+        elif t == 'e':
+            stim.append('E')
         else:
             stim.append(t)
-    c = {'mq': b['mq'], 'ops': ops, 'stim': stim}
+    c = {'mq': b['mq'], 'ops': ops, 'stim': stim, 'end_mode': 'return'}
     c.update(_client(b['all']))
     c.update(variant)
     return c
@@ -395,7 +469,7 @@ VARIANTS = [{'recv_mode': r, 'send_mode': s, 'style': y}
 DUAL_VARIANTS = [v for v in VARIANTS if v['style'] == 'dual']
 X_ACTIONS = ['XSrvArrive', 'XSrvFail', 'XPumpLoop', 'XPumpGot', 'XPumpCheck', 'XPumpWake', 'XPumpCancelled', 'XAppRecv',
              'XRecvLoop', 'XRecvWake', 'XRecvRawRet', 'XCancelRecv', 'XAppSend', 'XSendRet', 'XAppClose',
-             'XCloseSent', 'XCloseFinish']
+             'XCloseSent', 'XCloseFinish', 'XAppCloseF', 'XCloseSendFail', 'XRespEnd', 'XAppReturn']
 
 
 def _signature(clause, case, trace, at, raised=None):
@@ -430,11 +504,14 @@ def run(ctx):
                        'pump failure on /repo); a pending or later receive must still be released',
                        'after a sender was told of the disconnect the socket is closed: later receives raise '
                        'WebSocketDisconnected even if messages are still queued (modelled as specified behaviour)',
-                       'the server does not raise from send(); its receive() raises only where a script injects it']
+                       'the server raises from send() only for a websocket.close event where a script injects it (closeF: the '
+                       'application catches the error and goes on); its receive() raises only where a script injects it',
+                       'the responder ends by returning or by re-raising the WebSocketDisconnected of its last call; the '
+                       'framework then closes the connection itself; nothing may be left running when the callable returns']
     import falcon.asgi  # noqa: F401  (after srcimport)
     stepper = steploop.Stepper()
     seen = {}                       # trace digest -> (trace, case)
-    counts = {'A1': 0, 'A2': 0, 'B': 0}
+    counts = {'A1': 0, 'A2': 0, 'A3': 0, 'B': 0}
 
     def execute(case, origin, judge=True):
         nonlocal stepper
@@ -458,109 +535,185 @@ def run(ctx):
             seen[key] = (trace, case, info['raised'])
         return trace, info
 
-    # ---- leg M: the design ---------------------------------------------------------------------
-    r = ctx.tlc('MC_WsBuffer', ctx.pick('MC_WsBufferQ.cfg', 'MC_WsBufferT.cfg'), coverage=True, workers=8,
-                timeout=ctx.pick(240, 840))
-    ctx.require_coverage(r, X_ACTIONS)
-    ctx.extra['design_states'] = {'generated': r.generated, 'distinct': r.distinct, 'depth': r.depth}
-    ctx.progress('leg M safety: %d generated / %d distinct states in %.1fs' % (r.generated, r.distinct, r.wall))
-    rl = ctx.tlc('MC_WsBuffer', 'MC_WsBufferLive.cfg', workers=8, timeout=400)
-    ctx.progress('leg M liveness (weak fairness): %d distinct states in %.1fs' % (rl.distinct, rl.wall))
-    # vacuity: the wrong-design switches must break the invariants
-    for cfg, inv in (('MC_WsBufferGe.cfg', 'Bounded'), ('MC_WsBufferNoAwait.cfg', 'NothingLeftRunning'),
-                     ('MC_WsBufferNoNotify.cfg', 'NoLostWake')):
-        rv = ctx.tlc('MC_WsBuffer', cfg, workers=4, timeout=240, must_hold=False, count=False)
-        if rv.violated != inv:
-            raise MachineryError('vacuous model: %s does not violate %s (got %r)' % (cfg, inv, rv.violated))
-    try:                      # a liveness witness: TLC reports the violated temporal property as an error
-        ctx.tlc('MC_WsBuffer', 'MC_WsBufferNoRelease.cfg', workers=4, timeout=240, must_hold=False, count=False)
-        raise MachineryError('vacuous model: MC_WsBufferNoRelease.cfg does not violate PendingReleased')
-    except _tlc.TLCError as ex:
-        if 'Temporal property PendingReleased was violated' not in str(ex) and 'Temporal properties were violated' not in str(ex):
-            raise
-    # reachability: the situations the two-task model exists for really occur in it
-    for cfg, inv in (('MC_WsBufferReach.cfg', 'ReleasedByClose'), ('MC_WsBufferReachF.cfg', 'ReleasedByFault')):
-        rv = ctx.tlc('MC_WsBuffer', cfg, workers=4, timeout=240, must_hold=False, count=False)
-        if rv.violated != inv:
-            raise MachineryError('%s: a receive pending while the pump ends is not reachable (got %r)' % (cfg, rv.violated))
-    ctx.extra['wrong_design_switches'] = {'GeCmp=FALSE': 'violates Bounded', 'AwaitStop=FALSE': 'violates NothingLeftRunning',
-                                          'NotifyPop=FALSE': 'violates NoLostWake',
-                                          'ReleaseOnEnd=FALSE': 'violates PendingReleased (liveness)'}
-    ctx.progress('leg M vacuity witnesses ok')
+    # ---- TLC jobs: a small pool (each run is its own JVM; the behaviour generators run while Python replays) ----
+    from concurrent.futures import ThreadPoolExecutor
+    pool = ThreadPoolExecutor(max_workers=3)
+    WITNESSES = (('MC_WsBufferGe.cfg', 'Bounded'), ('MC_WsBufferNoAwait.cfg', 'NothingLeftRunning'),
+                 ('MC_WsBufferNoNotify.cfg', 'NoLostWake'), ('MC_WsBufferStopFirst.cfg', 'Conserved'),
+                 ('MC_WsBufferStopFirstP.cfg', 'AcceptedHasPump'), ('MC_WsBufferNoCleanup.cfg', 'AfterAppReturn'))
+    REACH = (('MC_WsBufferReach.cfg', 'ReleasedByClose'), ('MC_WsBufferReachF.cfg', 'ReleasedByFault'),
+             ('MC_WsBufferReachX.cfg', 'DeliveredAfterFailedClose'), ('MC_WsBufferReachE.cfg', 'ReturnedFromFullQueue'))
 
-    # ---- leg A1: run-to-quiescence behaviours, results compared exactly ----------------------------
-    ra = ctx.tlc('MC_WsBuffer', ctx.pick('MC_WsBufferA1Q.cfg', 'MC_WsBufferA1T.cfg'), workers=4, timeout=600, count=False)
-    behaviours = list({digest(b): b for b in ra.json}.values())
-    del ra
-    # one stimulus script may have two outcomes in the specification: when close() of the writer task releases
-    # a pending receive of the reader task, the order of the two returns is not determined
-    scripts = {}
-    for b in behaviours:
-        key = digest([b['mq'], b['all'], [(e['e'], e['op']) for e in b['h'] if e['e'] != 'R']])
-        scripts.setdefault(key, []).append(b)
-    keys = sorted(scripts)
+    def norelease():
+        try:                      # a liveness witness: TLC reports the violated temporal property as an error
+            ctx.tlc('MC_WsBuffer', 'MC_WsBufferNoRelease.cfg', workers=2, timeout=240, must_hold=False, count=False)
+        except _tlc.TLCError as ex:
+            if 'Temporal property PendingReleased was violated' not in str(ex) and 'Temporal properties were violated' not in str(ex):
+                raise
+            return True
+        return False
+
+    f_safety = pool.submit(ctx.tlc, 'MC_WsBuffer', ctx.pick('MC_WsBufferQ.cfg', 'MC_WsBufferT.cfg'), coverage=True, workers=6,
+                           timeout=ctx.pick(300, 1100))
+    f_a1 = pool.submit(ctx.tlc, 'MC_WsBuffer', ctx.pick('MC_WsBufferA1Q.cfg', 'MC_WsBufferA1T.cfg'), workers=4, timeout=900, count=False)
+    f_wit = [(cfg, inv, pool.submit(ctx.tlc, 'MC_WsBuffer', cfg, workers=2, timeout=240, must_hold=False, count=False))
+             for cfg, inv in WITNESSES + REACH]
+    f_norel = pool.submit(norelease)
+    f_a3 = {fam: pool.submit(ctx.tlc, 'MC_WsBuffer', cfg, workers=2, timeout=600, count=False)
+            for fam, cfg in (('failclose', 'MC_WsBufferA3F.cfg'), ('sender', 'MC_WsBufferA3S.cfg'))}
+    f_live = pool.submit(ctx.tlc, 'MC_WsBuffer', ctx.pick('MC_WsBufferLive.cfg', 'MC_WsBufferLiveT.cfg'), workers=4,
+                         timeout=ctx.pick(400, 1100))
+    f_a2 = pool.submit(ctx.tlc, 'MC_WsBuffer', 'MC_WsBufferA2.cfg', simulate={'num': ctx.pick(500, 7000)}, depth=30,
+                       seed=ctx.seed + 1, workers=4, timeout=600, count=False)
+    pool.shutdown(wait=False)
+
+    # ---- leg M: the design ---------------------------------------------------------------------
+    def finish_leg_m():
+        """collected after the replays (the runs are independent of them)"""
+        r = f_safety.result()
+        ctx.require_coverage(r, X_ACTIONS)
+        ctx.extra['design_states'] = {'generated': r.generated, 'distinct': r.distinct, 'depth': r.depth}
+        ctx.progress('leg M safety: %d generated / %d distinct states in %.1fs' % (r.generated, r.distinct, r.wall))
+        rl = f_live.result()
+        ctx.progress('leg M liveness (weak fairness): %d distinct states in %.1fs' % (rl.distinct, rl.wall))
+        # vacuity: the wrong-design switches must break the invariants; reachability: the situations the two-task
+        # model, the refused close and the end of the callable exist for really occur in it
+        for cfg, inv, f in f_wit:
+            rv = f.result()
+            if rv.violated != inv:
+                raise MachineryError('vacuous model: %s does not violate %s (got %r)' % (cfg, inv, rv.violated))
+        if not f_norel.result():
+            raise MachineryError('vacuous model: MC_WsBufferNoRelease.cfg does not violate PendingReleased')
+        ctx.extra['wrong_design_switches'] = {'GeCmp=FALSE': 'violates Bounded', 'AwaitStop=FALSE': 'violates NothingLeftRunning',
+                                              'NotifyPop=FALSE': 'violates NoLostWake',
+                                              'ReleaseOnEnd=FALSE': 'violates PendingReleased (liveness)',
+                                              'StopAfterSend=FALSE': 'violates Conserved and AcceptedHasPump',
+                                              'CleanupOnDisc=FALSE': 'violates AfterAppReturn'}
+        ctx.extra['reachability_witnesses'] = [inv for _, inv in REACH]
+        ctx.progress('leg M liveness, vacuity and reachability witnesses ok')
+
+    # ---- legs A1 / A3: run-to-quiescence behaviours, results compared exactly ------------------------
     import gc
-    gc.collect()
-    gc.freeze()        # the loaded behaviours are long-lived: keep them out of the collector's way while replaying
-    judge_every = max(1, len(keys) // ctx.pick(1500, 12000))
-    held_more = 0
-    TOK = {'D': 'Arrive', 'C': 'Cancel', 'F': 'SrvRecvFail', 'A': 'AppCall', 'R': 'AppRet'}
+    TOK = {'D': 'Arrive', 'C': 'Cancel', 'F': 'SrvRecvFail', 'A': 'AppCall', 'R': 'AppRet', 'E': 'RespEnd'}
 
     def tokens_of(b):
         return [(TOK[e['e']], e['op'] if e['e'] in 'AR' else '', e['r'] if e['e'] == 'R' else -1) for e in b['h']]
 
-    for i, key in enumerate(keys):
-        outcomes = scripts[key]
-        b0 = outcomes[0]
-        pool = DUAL_VARIANTS if overlapping(b0) else VARIANTS
-        for variant in ctx.rng.sample(pool, ctx.pick(1, 1)):
-            case = case_from_quiescent(b0, variant)
-            trace, info = execute(case, 'A1', judge=(i % judge_every == 0))
-            if trace is None:
-                continue
-            wants = [tokens_of(b) for b in outcomes]
-            got = [(e, op, (r if e == 'AppRet' else -1)) for e, op, r in info['tokens']]
-            if got not in wants:
-                want = wants[0]
-                k = next((j for j in range(min(len(got), len(want))) if got[j] != want[j]), min(len(got), len(want)))
-                ctx.violation('P:A1_results', {'case': case, 'spec_behaviour': b0, 'trace': trace},
-                              'application-visible history differs from the specification at step %d: spec %r, code %r'
-                              % (k, want[k:k + 2], got[k:k + 2]),
-                              signature={'clause': 'P:A1_results', 'buffered': case['mq'] > 0,
-                                         'spec_step': list(want[k]) if k < len(want) else None})
-                continue
-            b = outcomes[wants.index(got)]
-            if info['end']['waiting'] != b['waiting']:
-                ctx.violation('P:A1_waiting', {'case': case, 'spec_behaviour': b, 'trace': trace},
-                              'at quiescence a receive is %swaiting in the code, the specification says %s'
-                              % ('' if info['end']['waiting'] else 'not ', b['waiting']),
-                              signature={'clause': 'P:A1_waiting', 'buffered': case['mq'] > 0})
-                continue
-            # detail (model faithfulness, not demanded by the property): exact number of server pulls
-            spec_pulls = [e['pulls'] for e in b['h'] if e['e'] != 'R']
-            real_pulls = info['pulls_at'][0::2]
-            if spec_pulls != real_pulls or b['pulls'] != info['end']['pulls'] or \
-                    b['outstanding'] != info['end']['outstanding'] or b['pumpAlive'] != (info['end']['stray'] > 0):
-                ctx.detail('D:A1_pulls', {'case': case, 'spec_behaviour': b},
-                           'pull accounting differs: spec %r/%r/%r/%r code %r/%r/%r/%r'
-                           % (spec_pulls, b['pulls'], b['outstanding'], b['pumpAlive'], real_pulls,
-                              info['end']['pulls'], info['end']['outstanding'], info['end']['stray']))
-            consumed = sum(1 for e in b['h'] if e['e'] == 'R' and e['op'] == 'recv' and e['r'] >= 0)
-            if b['mq'] > 0 and b['pulls'] - consumed > b['mq']:
-                held_more += 1
-    ctx.traces_validated += counts['A1']
+    def replay_quiescent(behaviours, origin, limit, judge_budget, end_modes=('return',)):
+        """replays (a seeded sample of at most `limit`) stimulus scripts of run-to-quiescence behaviours and compares
+        the application-visible history with the specification's; returns (#scripts, #replayed, #two outcomes, #held)"""
+        # one stimulus script may have two outcomes in the specification: when close() of the writer task releases
+        # a pending receive of the reader task, the order of the two returns is not determined
+        scripts = {}
+        for b in behaviours:
+            key = digest([b['mq'], b['all'], [(e['e'], e['op']) for e in b['h'] if e['e'] != 'R']])
+            scripts.setdefault(key, []).append(b)
+        keys = sorted(scripts)
+        n_scripts = len(keys)
+        if len(keys) > limit:
+            keys = sorted(ctx.rng.sample(keys, limit))
+        judge_every = max(1, len(keys) // judge_budget)
+        held_more = 0
+        for i, key in enumerate(keys):
+            outcomes = scripts[key]
+            b0 = outcomes[0]
+            pool = DUAL_VARIANTS if overlapping(b0) else VARIANTS
+            ended = any(e['e'] == 'E' for e in b0['h'])
+            for end_mode in (end_modes if ended else ('return',)):
+                variant = ctx.rng.choice(pool)
+                case = case_from_quiescent(b0, variant)
+                case['end_mode'] = end_mode
+                trace, info = execute(case, origin, judge=(i % judge_every == 0))
+                if trace is None:
+                    continue
+                wants = [tokens_of(b) for b in outcomes]
+                got = [(e, op, (r if e == 'AppRet' else -1)) for e, op, r in info['tokens']]
+                if got not in wants:
+                    want = wants[0]
+                    k = next((j for j in range(min(len(got), len(want))) if got[j] != want[j]), min(len(got), len(want)))
+                    ctx.violation('P:A1_results', {'case': case, 'spec_behaviour': b0, 'trace': trace},
+                                  'application-visible history differs from the specification at step %d: spec %r, code %r'
+                                  % (k, want[k:k + 2], got[k:k + 2]),
+                                  signature={'clause': 'P:A1_results', 'buffered': case['mq'] > 0,
+                                             'spec_step': list(want[k]) if k < len(want) else None})
+                    continue
+                b = outcomes[wants.index(got)]
+                if info['end']['waiting'] != b['waiting']:
+                    ctx.violation('P:A1_waiting', {'case': case, 'spec_behaviour': b, 'trace': trace},
+                                  'at quiescence a receive is %swaiting in the code, the specification says %s'
+                                  % ('' if info['end']['waiting'] else 'not ', b['waiting']),
+                                  signature={'clause': 'P:A1_waiting', 'buffered': case['mq'] > 0})
+                    continue
+                # the end of the application callable: the specification says whether it has returned at quiescence
+                # and (AfterAppReturn, checked by TLC on these behaviours) that the pump is gone then
+                ar = info['app_return']
+                if b['returned'] != (ar is not None):
+                    ctx.violation('P:A_app_return', {'case': case, 'spec_behaviour': b, 'trace': trace},
+                                  'at quiescence the application callable has %sreturned in the code, the specification says %s'
+                                  % ('' if ar else 'not ', b['returned']),
+                                  signature={'clause': 'P:A_app_return', 'buffered': case['mq'] > 0, 'end_mode': end_mode})
+                    continue
+                if ar is not None and ((ar['p'] > 0) != b['pumpAlive'] or (ar['o'] > 0) != b['outstanding'] or ar['r'] != OK):
+                    ctx.violation('P:left_running_after_app', {'case': case, 'spec_behaviour': b, 'trace': trace},
+                                  'when the application callable returned: %d stray task(s), %d receive() outstanding, raised=%s; '
+                                  'the specification: pump alive %s, outstanding %s'
+                                  % (ar['p'], ar['o'], ar['r'] == ERR, b['pumpAlive'], b['outstanding']),
+                                  signature={'clause': 'P:left_running_after_app', 'buffered': case['mq'] > 0,
+                                             'end_mode': end_mode})
+                    continue
+                # detail (model faithfulness, not demanded by the property): exact number of server pulls
+                spec_pulls = [e['pulls'] for e in b['h'] if e['e'] != 'R']
+                real_pulls = info['pulls_at'][0::2]
+                if spec_pulls != real_pulls or b['pulls'] != info['end']['pulls'] or \
+                        b['outstanding'] != info['end']['outstanding'] or b['pumpAlive'] != (info['end']['stray'] > 0):
+                    ctx.detail('D:A1_pulls', {'case': case, 'spec_behaviour': b},
+                               'pull accounting differs: spec %r/%r/%r/%r code %r/%r/%r/%r'
+                               % (spec_pulls, b['pulls'], b['outstanding'], b['pumpAlive'], real_pulls,
+                                  info['end']['pulls'], info['end']['outstanding'], info['end']['stray']))
+                consumed = sum(1 for e in b['h'] if e['e'] == 'R' and e['op'] == 'recv' and e['r'] >= 0)
+                if b['mq'] > 0 and b['pulls'] - consumed > b['mq']:
+                    held_more += 1
+        return n_scripts, len(keys), sum(1 for v in scripts.values() if len(v) > 1), held_more
+
+    ra = f_a1.result()
+    behaviours = list({digest(b): b for b in ra.json}.values())
+    del ra
+    gc.collect()
+    gc.freeze()        # the loaded behaviours are long-lived: keep them out of the collector's way while replaying
+    n_scripts, n_replayed, n_two, held_more = replay_quiescent(behaviours, 'A1', ctx.pick(6000, 60000), ctx.pick(1200, 12000))
     ctx.extra['A1_behaviours'] = len(behaviours)
-    ctx.extra['A1_scripts'] = len(keys)
-    ctx.extra['A1_scripts_with_two_outcomes'] = sum(1 for v in scripts.values() if len(v) > 1)
+    ctx.extra['A1_scripts'] = n_scripts
+    ctx.extra['A1_scripts_replayed'] = n_replayed
+    ctx.extra['A1_scripts_with_two_outcomes'] = n_two
     ctx.extra['A1_behaviours_with_capacity_plus_one_pulls'] = held_more
-    ctx.progress('leg A1: %d behaviours / %d scripts, %d replays compared' % (len(behaviours), len(keys), counts['A1']))
-    del behaviours, scripts
+    ctx.progress('leg A1: %d behaviours / %d scripts, %d replays compared' % (len(behaviours), n_scripts, counts['A1']))
+    del behaviours
     gc.unfreeze()
     gc.collect()
 
+    # ---- leg A3: the two scenario families, every capacity 1..4 x 0..capacity+1 pending client messages ----------
+    #   failclose: receive^a ; close() refused by the server ; receive^b ; close() ; end of the callable
+    #   sender:    send^a ; end of the callable (responder returns / lets WebSocketDisconnected propagate)
+    for fam, cfg, limit in (('failclose', 'MC_WsBufferA3F.cfg', ctx.pick(1200, 10 ** 9)),
+                            ('sender', 'MC_WsBufferA3S.cfg', ctx.pick(1000, 10 ** 9))):
+        rz = f_a3[fam].result()
+        fb = list({digest(b): b for b in rz.json}.values())
+        del rz
+        cover = {(b['mq'], sum(1 for m in b['all'] if m != DISC)) for b in fb
+                 if fam == 'sender' or any(e['e'] == 'R' and e['r'] == SENDFAIL for e in b['h'])}
+        missing = [(q, n) for q in (1, 2, 3, 4) for n in range(0, q + 2) if (q, n) not in cover]
+        if missing:
+            raise MachineryError('scenario family %s: no behaviour for (capacity, messages) %r' % (fam, missing))
+        before = counts['A3']
+        n_scripts, n_replayed, _, _ = replay_quiescent(fb, 'A3', limit, ctx.pick(700, 10 ** 9), end_modes=('return', 'raise'))
+        ctx.extra['A3_' + fam] = {'behaviours': len(fb), 'scripts': n_scripts, 'scripts_replayed': n_replayed,
+                                  'replays': counts['A3'] - before}
+        ctx.progress('leg A3 %s: %d behaviours / %d scripts, %d replays compared' % (fam, len(fb), n_scripts, counts['A3'] - before))
+        del fb
+    ctx.traces_validated += counts['A1'] + counts['A3']
+
     # ---- leg A2: simulated fine-grained behaviours -> racy stimulus scripts -------------------------
-    rs = ctx.tlc('MC_WsBuffer', 'MC_WsBufferA2.cfg', simulate={'num': ctx.pick(500, 7000)}, depth=30,
-                 seed=ctx.seed + 1, workers=4, timeout=600, count=False)
+    rs = f_a2.result()
     sims = list({digest(b): b for b in rs.json}.values())
     sims.sort(key=digest)
     for b in sims:
@@ -572,6 +725,8 @@ def run(ctx):
     for _ in range(ctx.pick(3000, 45000)):
         execute(random_case(ctx.rng), 'B')
     ctx.progress('leg B: %d random scripts driven; %d distinct traces to judge' % (counts['B'], len(seen)))
+
+    finish_leg_m()
 
     # ---- TLC judges every distinct boundary trace ---------------------------------------------------
     items = list(seen.values())
